@@ -85,6 +85,8 @@ func propC01(c *Ctx, r *Report) {
 	r.Clauses = append(r.Clauses, irFieldReadClause)
 	c.runIRFieldRead(r, "irfield.read", "spirv", irFieldReadExceptions)
 	r.floor("irfield.read.spirv", 90)
+	c.runIRFieldReadSel(r, "irfield.decl", "spirv", irFieldReadExceptions, irDeclStructs)
+	r.floor("irfield.decl.spirv", 25)
 	r.Clauses = append(r.Clauses, shallowWalkerClause)
 	c.runShallowWalker(r, "walker.shallow", inPkgs("spirv"), shallowWalkerExceptions)
 	r.floor("walker.shallow", 2)
